@@ -16,6 +16,15 @@
 //! panic index | panic bitset | panic other        the call panicked (classified by message)
 //! ```
 //!
+//! A second operation ties the model of the binary AIGER delta coding to the real parser:
+//!
+//! ```text
+//! aigand <ninputs> <hex bytes>      file "aig <n+1> <n> 0 0 1\n" followed by the bytes
+//! ```
+//!
+//! with output `ok <lit> <lit>` (the two inputs of the AND gate as parsed), `err` (diagnostic),
+//! `panic`, or `bad-op` when the bytes are not a prefix of exactly two 7-bit integers.
+//!
 //! Oracles (independent of the Lean model): own DFS for reachability / cycles / unknown inputs,
 //! truth tables of every reachable gate before and after, the five documented normal-form
 //! conditions, topological order and well-scopedness of the result, gate-map consistency, error
@@ -548,9 +557,72 @@ fn oracle(s: &Src, out: &Outcome, line: &str, ctx: &mut Ctx) {
     if ng < r.post.len() { ctx.count("result:fewer-gates-than-reachable"); }
 }
 
+fn hex_bytes(s: &str) -> Option<Vec<u8>> {
+    if s == "-" {
+        return Some(Vec::new());
+    }
+    if s.len() % 2 != 0 || s.len() > 64 {
+        return None;
+    }
+    (0..s.len() / 2).map(|i| u8::from_str_radix(s.get(2 * i..2 * i + 2)?, 16).ok()).collect()
+}
+
+/// `aigand <ninputs> <hex>`: one AND gate of a binary AIGER file
+fn step_aigand(w: &[&str], ctx: &mut Ctx) -> String {
+    if w.len() != 3 || w[1].is_empty() || w[1].len() > 6 || !w[1].bytes().all(|b| b.is_ascii_digit()) {
+        return "bad-op".into();
+    }
+    let n: usize = w[1].parse().unwrap();
+    let Some(bytes) = hex_bytes(w[2]) else { return "bad-op".into() };
+    // only prefixes of exactly two 7-bit integers (nothing may follow the AND gate)
+    let terms: Vec<usize> = bytes.iter().enumerate().filter(|(_, b)| **b < 128).map(|(i, _)| i).collect();
+    if terms.len() > 2 || (terms.len() == 2 && terms[1] + 1 != bytes.len()) {
+        return "bad-op".into();
+    }
+    let mut file = format!("aig {} {} 0 0 1\n", n + 1, n).into_bytes();
+    file.extend_from_slice(&bytes);
+    let opts = oxidd_parser::ParseOptionsBuilder::default().build().unwrap();
+    let r = catch_unwind(AssertUnwindSafe(|| match oxidd_parser::aiger::parse::<()>(&opts)(&file) {
+        Ok((_, p)) => {
+            let g = p.circuit.gate_for_no(0).unwrap();
+            Some(g.inputs.iter().map(|l| from_real(*l)).collect::<Vec<_>>())
+        }
+        Err(_) => None,
+    }));
+    match r {
+        Ok(Some(ins)) => {
+            ctx.count("aigand:ok");
+            // oracle: the decoded inputs are smaller than the gate and ordered (in1 >= in2)
+            let code = |l: &L| match *l {
+                L::F => 0,
+                L::T => 1,
+                L::In(s, i) => 2 * (i + 1) + s as usize,
+                L::Gate(s, g) => 2 * (n + 1 + g) + s as usize,
+                L::U(_) => usize::MAX,
+            };
+            if ins.len() != 2 || !(code(&ins[0]) < 2 * (n + 1) && code(&ins[1]) <= code(&ins[0])) {
+                ctx.fail("aig-delta-order", &format!("`aigand {} {}`: decoded inputs {:?} violate lhs > rhs0 >= rhs1", n, w[2], ins));
+            }
+            format!("ok {}", ins.iter().map(|l| show_l(*l)).collect::<Vec<_>>().join(" "))
+        }
+        Ok(None) => {
+            ctx.count("aigand:err");
+            "err".into()
+        }
+        Err(_) => {
+            ctx.fail("parser-panic", &format!("`aigand {} {}`: the AIGER parser panicked", n, w[2]));
+            "panic".into()
+        }
+    }
+}
+
 impl Scenario for Circ {
     fn reset(&mut self) {}
     fn step(&mut self, line: &str, ctx: &mut Ctx) -> String {
+        let w = words(line);
+        if w.first() == Some(&"aigand") {
+            return step_aigand(&w, ctx);
+        }
         let Some(s) = parse_line(line) else { return "bad-op".into() };
         let out = run_real(&s);
         match &out {
@@ -832,6 +904,74 @@ fn generate(cfg: &GenCfg, rng: &mut Rng, w: &mut dyn Write) {
             let s = random_circuit(rng, 6, 12, 5, cyc, true);
             e.line(&s);
         }
+    }
+    gen_aigand(cfg, rng, &mut e);
+}
+
+fn enc7(mut x: u128, out: &mut Vec<u8>) {
+    loop {
+        let b = (x & 127) as u8;
+        x >>= 7;
+        if x == 0 {
+            out.push(b);
+            return;
+        }
+        out.push(b | 128);
+    }
+}
+
+/// binary AIGER AND gates: valid deltas, invalid deltas, over-long and truncated integers
+fn gen_aigand(cfg: &GenCfg, rng: &mut Rng, e: &mut Emit) {
+    e.group("aigand");
+    let want = if cfg.thorough { 60_000 } else { 4_000 } * cfg.scale.max(1) as usize;
+    for k in 0..want {
+        let n = match rng.below(4) {
+            0 => rng.below(3) as usize,
+            1 => rng.below(70) as usize,
+            2 => rng.below(10_000) as usize,
+            _ => rng.below(400_000) as usize,
+        };
+        let lhs = 2 * (n as u128 + 1);
+        let (d1, d2): (u128, u128) = match k % 8 {
+            // valid
+            0..=3 => {
+                let d1 = 1 + rng.below(lhs as u64) as u128;
+                let in1 = lhs - d1;
+                (d1, if rng.chance(1, 5) { in1 } else { rng.below(in1 as u64 + 1) as u128 })
+            }
+            // boundary / invalid
+            4 => (rng.below(3) as u128 * lhs / 2, rng.below(4) as u128),
+            5 => (lhs + rng.below(3) as u128, 0),
+            6 => (1 + rng.below(lhs as u64) as u128, lhs + rng.below(200) as u128),
+            // huge: more than 64 bits (wrapping shifts in `usize_7bit`)
+            _ => ((rng.next() as u128) << rng.below(40), (rng.next() as u128) << rng.below(40)),
+        };
+        let mut bytes = Vec::new();
+        enc7(d1, &mut bytes);
+        enc7(d2, &mut bytes);
+        // redundant leading groups (0x80 continuation bytes) keep the value but lengthen the integer
+        if rng.chance(1, 10) {
+            let last = bytes.pop().unwrap();
+            bytes.push(last | 128);
+            for _ in 0..rng.below(9) {
+                bytes.push(128);
+            }
+            bytes.push(rng.below(2) as u8);
+        }
+        if rng.chance(1, 12) {
+            bytes.truncate(rng.below(bytes.len() as u64 + 1) as usize);
+        }
+        if bytes.len() > 32 {
+            bytes.truncate(32);
+        }
+        let hex: String = if bytes.is_empty() { "-".into() } else { bytes.iter().map(|b| format!("{:02x}", b)).collect() };
+        if e.in_case >= 40 {
+            e.in_case = 0;
+            e.cases += 1;
+            writeln!(e.w, "case aigand {}", e.cases).unwrap();
+        }
+        e.in_case += 1;
+        writeln!(e.w, "aigand {} {}", n, hex).unwrap();
     }
 }
 
